@@ -1,5 +1,6 @@
 import Driver.Scenario
 import Driver.PerTestDrv
+import Driver.MocksDrv
 open Cgreen.Drv
 
 /-- Read all of stdin as lines. -/
@@ -28,6 +29,16 @@ def main (args : List String) : IO UInt32 := do
       for l in Cgreen.Drv.PT.runPerTest b do out.putStrLn l
       out.putStrLn "---"
     return 0
+  | ["mockspec"] =>
+    for b in blocks lines do
+      for l in Cgreen.Drv.MK.specLines b do out.putStrLn l
+      out.putStrLn "---"
+    return 0
+  | ["mocks"] =>
+    for b in blocks lines do
+      for l in Cgreen.Drv.MK.runLines b do out.putStrLn l
+      out.putStrLn "---"
+    return 0
   | _ =>
-    IO.eprintln "usage: modeldrv scenario|pertest < input"
+    IO.eprintln "usage: modeldrv scenario|pertest|mocks < input"
     return 2
